@@ -1162,6 +1162,9 @@ def numeric_law(n, edges, m, P, Q, s, tol=1e-9):
 
 def _geometries(rng, n, edges, kind):
     P = rng.uniform(-2, 2, size=(n, 3))
+    if kind == "tiny-reference":
+        # all reference atoms within ~1e-3 nm of each other (distinct positions, nearly coincident): bonds of 1e-4 .. 1e-3 nm
+        return np.round(rng.uniform(-2, 2, size=3) * 4) / 4 + P * float(rng.choice([1e-3, 3e-4]))
     anchors = H.degree2(n, edges)
     nb = H.neighbours(n, edges)
     if kind != "generic" and anchors:
@@ -1422,9 +1425,9 @@ def task_numeric_generic(prop, tier, seed):
     rng = np.random.default_rng(777 + seed)
     N = 30 if tier == "quick" else 300
     out = []
-    kinds = {"C02": ("generic", "nearly-straight", "unit-neighbour-distance", "collinear-axis", "collinear-diagonal", "collinear-near-axis", "collinear-integer-direction", "two-atom", "one-atom"),
-             "C03": ("generic", "nearly-straight", "unit-neighbour-distance", "collinear-axis", "collinear-near-axis", "collinear-integer-direction"),
-             "C04": ("generic", "nearly-straight", "unit-neighbour-distance", "collinear-axis")}[prop]
+    kinds = {"C02": ("generic", "nearly-straight", "unit-neighbour-distance", "tiny-reference", "collinear-axis", "collinear-diagonal", "collinear-near-axis", "collinear-integer-direction", "two-atom", "one-atom"),
+             "C03": ("generic", "nearly-straight", "unit-neighbour-distance", "tiny-reference", "collinear-axis", "collinear-near-axis", "collinear-integer-direction"),
+             "C04": ("generic", "nearly-straight", "unit-neighbour-distance", "tiny-reference", "collinear-axis")}[prop]
     for kind in kinds:
         first, nbad, nrun = None, 0, 0
         for t_ in range(N):
@@ -1469,7 +1472,7 @@ def task_numeric_law(prop, tier, seed):
     rng = np.random.default_rng(321 + seed)
     N = 40 if tier == "quick" else 400
     out = []
-    for kind in ("generic", "collinear-axis", "collinear-diagonal", "collinear-near-axis", "collinear-integer-direction", "nearly-straight", "unit-neighbour-distance"):
+    for kind in ("generic", "collinear-axis", "collinear-diagonal", "collinear-near-axis", "collinear-integer-direction", "nearly-straight", "unit-neighbour-distance", "tiny-reference"):
         first, nbad, nrun = None, 0, 0
         for t in range(N):
             n = int(rng.integers(3, 8))
